@@ -414,13 +414,17 @@ def snapshot(v):
     return v
 
 class Path(object):
-    """an assignable path: result | name(.attr)* with optional [:] suffix"""
+    """an assignable path: result | name(.attr)* with optional [:] suffix; a trailing `.*` (modifies only) means
+    every attribute of that object"""
     def __init__(self, text):
         self.text = text
         t = text.strip()
         self.inplace = t.endswith('[:]')
         if self.inplace:
             t = t[:-3]
+        self.wild = t.endswith('.*')
+        if self.wild:
+            t = t[:-2] + '.__any__' 
         self.expr = CExpr(t)
         node = self.expr.body
         self.is_result = isinstance(node, ast.Name) and node.id == 'result'
@@ -870,7 +874,7 @@ class Contract(object):
                 after = o.__dict__
                 for k in set(before) | set(after):
                     path = name + '.' + k
-                    if path in allowed or (id(o), k) in allowed_ids:
+                    if path in allowed or (id(o), k) in allowed_ids or (id(o), '__any__') in allowed_ids:
                         continue
                     if k not in after or k not in before or not _shallow_same(before[k], after[k]):
                         failures.append("frame: %s changed (%r -> %r)" % (path, _short(before.get(k)), _short(after.get(k))))
@@ -1041,7 +1045,7 @@ def _frame_check(I, ctx, q, env, pre_objs, pre_state, allowed, allowed_ids=()):
         after = o.__dict__
         for k in sorted(set(before) | set(after)):
             path = name + '.' + k
-            if path in allowed or (id(o), k) in allowed_ids:
+            if path in allowed or (id(o), k) in allowed_ids or (id(o), '__any__') in allowed_ids:
                 continue
             if k not in after:
                 ctx.oblige("%s/frame:%s" % (q, path), False, detail="attribute deleted")
@@ -1124,6 +1128,7 @@ class TraceContract(object):
                 ret = self.returns_shape.build(Builder('sym', ctx=I.ctx), "ext!%s!%d" % (self.channel, k))
             rec = rec + (ret,)
         I.ctx.trace.setdefault(self.channel, []).append((rec, dict(kwargs)))
+        I.ctx.trace.setdefault(self.channel + '@', []).append((_then(rec), {}))
         I.ctx.trace.setdefault('*', []).append((self.channel, rec, dict(kwargs)))
         if self.may_raise is not None and ext_values is not None:
             if ext_values.get("ext!%s!%d!raises" % (self.channel, k)):
@@ -1135,6 +1140,26 @@ class TraceContract(object):
         return ret
 
 _NATIVE_TRACE = {}
+
+def _then(rec):
+    """shallow copies of the object arguments of a traced call: their fields as they were when the call was made"""
+    out = []
+    for a in rec:
+        if hasattr(a, '__dict__') and not isinstance(a, (type, types.ModuleType, types.FunctionType)) and type(a).__module__.startswith('bacpypes'):
+            c = object.__new__(type(a))
+            c.__dict__.update(a.__dict__)
+            out.append(c)
+        else:
+            out.append(a)
+    return tuple(out)
+
+def trace_then(channel):
+    """like trace(), but each object argument is a shallow copy taken at the moment of the call (the same object may be re-addressed
+    and handed on afterwards); use trace() where identity matters"""
+    return [a for (a, k) in _NATIVE_TRACE.get(channel + '@', [])]
+
+def _m_trace_then(I, channel):
+    return [a for (a, k) in I.ctx.trace.get(channel + '@', [])]
 
 def trace(channel):
     """in lemma bodies / contract expressions: the list of argument tuples of
@@ -1174,17 +1199,32 @@ class _native_externals(object):
                             ret = c.returns_shape.build(Builder('native', values=values, rng=random.Random(n)), "ext!%s!%d" % (c.channel, n))
                             r = r + (ret,)
                         _NATIVE_TRACE.setdefault(c.channel, []).append((r, dict(k)))
+                        _NATIVE_TRACE.setdefault(c.channel + '@', []).append((_then(r), {}))
                         if c.may_raise is not None and values.get("ext!%s!%d!raises" % (c.channel, n)):
                             raise c.may_raise("<raised by the external %s>" % c.channel)
                         return ret
                     return rec
                 setattr(owner, attr, mk())
                 self.saved.append((owner, attr, orig))
+        # trusted summary contracts come with a native stand-in implementing their post (the real callee is outside the unit)
+        for target_spec, stub in NATIVE_STUBS:
+            modname, _, qual = target_spec.partition(':')
+            owner_spec, _, attr = qual.rpartition('.')
+            owner = resolve(modname + (':' + owner_spec if owner_spec else ''))
+            orig = owner.__dict__.get(attr) if isinstance(owner, type) else getattr(owner, attr)
+            setattr(owner, attr, stub)
+            self.saved.append((owner, attr, orig))
         return self
     def __exit__(self, *exc):
-        for owner, attr, orig in self.saved:
+        for owner, attr, orig in reversed(self.saved):
             setattr(owner, attr, orig)
         return False
+
+NATIVE_STUBS = []
+
+def native_stub(target_spec, fn):
+    """native replays / cross-checks run `fn` in place of the target (the stand-in of a trusted summary contract)"""
+    NATIVE_STUBS.append((target_spec, fn))
 
 def external(target, channel, **kw):
     c = TraceContract(target, channel, **kw)
@@ -1369,6 +1409,7 @@ def make_config(repo_root, verif_root, unit=None, extra_models=None):
     cfg.models[id(check)] = _m_check
     cfg.models[id(trace)] = _m_trace
     cfg.models[id(trace_kw)] = _m_trace_kw
+    cfg.models[id(trace_then)] = _m_trace_then
     if extra_models:
         cfg.models.update(extra_models)
     return cfg
